@@ -14,6 +14,7 @@ Lines
         equals the oracle's trial of that index)
         reply `ok final=<0|1> deadlock=<0|1> chosen=<k|-> feas=<0|1> calcs=<c> steps=<k> xver=<v> cnt=<c0,c1,..> alldone=<0|1>`
         or `BAD@<i> <why>`
+  `F threads nF fl modfl nH`   `factorUpdate` (modify_factor's update-vs-refactor decision) → `FU <0|1>`
   `L`                      the lost-wake-up witness of `C12_lost_wakeup_reachable`: `LW n=<n> m=<m> sched=<t,..>`
   `W rep n m resid`        coordinator-starvation schedule produced by the model  → `sched=<t,t,..> end=<final|deadlock|open>`
   `E rep n m resid maxStates maxScheds spur`   breadth-first exploration of the model's state graph →
@@ -290,6 +291,10 @@ partial def loop (h out : IO.FS.Stream) : IO Unit := do
   match words line with
   | "R" :: rest => out.putStrLn (handleR rest)
   | "W" :: rest => out.putStrLn (handleW rest)
+  | ["F", th, nF, fl, modfl, nH] =>
+    match th.toNat?, nF.toNat?, fl.toNat?, modfl.toNat?, nH.toNat? with
+    | some th, some nF, some fl, some modfl, some nH => out.putStrLn s!"FU {if factorUpdate th true nF fl modfl nH then 1 else 0}"
+    | _, _, _, _, _ => out.putStrLn "bad-input"
   | "L" :: _ => out.putStrLn s!"LW n={lostWakeupCfg.n} m={lostWakeupCfg.m} rep={if lostWakeupCfg.repaired then 1 else 0} sched={schedStr lostWakeupSchedule}"
   | "E" :: rest => for l in handleE rest do out.putStrLn l
   | _ => out.putStrLn "bad-input"
